@@ -171,6 +171,67 @@ func c05Units(tier string, seed int64) []Unit {
 			}})
 		}
 	}
+	// E1 -> R1: explorer-found failing streams of the rejection-based consumers as the first test case
+	for _, pi := range []int{0, 1, 2, 4} {
+		pi := pi
+		units = append(units, Unit{Name: fmt.Sprintf("C05/e1-first-case/rejection-prog=%d", pi), Run: func(c *Ctx) {
+			prog := rejectionProgs()[pi]
+			max := 40
+			if !quick {
+				max = 1000
+			}
+			streams := failingStreams(c, prog, 18, 3, max)
+			c.Count("explorer_found_failing_first_cases", int64(len(streams)))
+			sd := uint64(seed)*31 + 4242
+			for si, words := range streams {
+				if c.Expired() {
+					c.Cap("time budget")
+					return
+				}
+				WithFirstCase(sd, words, func() {
+					cfg := Config{Checks: 2, Seed: sd, ShrinkMS: -1, NoFailFile: true, Name: "TestC05"}
+					env := NewEnv(nil, prog.Base)
+					log := RunCheck(prog, env, cfg)
+					c.R.Evals++
+					c.R.Transitions += int64(len(env.Invs))
+					c.Outcome(fmt.Sprintf("stream#%d %s steps=%d", si, log.Verdict().Class, len(adoptedChain(env))), len(adoptedChain(env)) > 0)
+					what := fmt.Sprintf("explorer-found first case %s", fmtWords(words))
+					facts, ok := c05Oracle(c, prog, log, nil, 0, what+", uncut", true)
+					if !ok {
+						return
+					}
+					blamed := env.Blamed()
+					shrinkInvs := len(env.Invs) - (blamed.Idx + 2)
+					for _, j := range cutPoints(shrinkInvs, quick) {
+						cfgj := cfg
+						cfgj.ShrinkMS = j
+						envj := NewEnv(nil, prog.Base)
+						logj := RunCheck(prog, envj, cfgj)
+						c.R.Evals++
+						c.Count("cut_runs", 1)
+						fj, okj := c05Oracle(c, prog, logj, nil, 0, fmt.Sprintf("%s, minimization cut after %d invocations", what, j), false)
+						if !okj {
+							c.Violate(Violation{Sig: "C05 cut-run-lost-the-failure prog=" + prog.Name, Detail: fmt.Sprintf("%s cut after %d: the run did not report the failure (%s)", what, j, logj.Verdict().Class),
+								Replay: map[string]any{"program": prog.Name, "words": words, "config": cfgj.String()}})
+							continue
+						}
+						in := false
+						for _, st := range facts.chain {
+							if equalWords(st, fj.final) {
+								in = true
+								break
+							}
+						}
+						if !in {
+							c.Violate(Violation{Sig: "C05 cut-result-not-a-state-of-the-uncut-run prog=" + prog.Name,
+								Detail: fmt.Sprintf("%s cut after %d: result %s is none of the %d states of the uncut minimization", what, j, fmtWords(fj.final), len(facts.chain)),
+								Replay: map[string]any{"program": prog.Name, "words": words, "config": cfgj.String()}})
+						}
+					}
+				})
+			}
+		}})
+	}
 	return units
 }
 
